@@ -30,6 +30,7 @@ def demo_commands(src):
     cmds = []
     for l in txt.splitlines():
         l = l.strip().strip("`")
+        l = re.sub(r"^cd\s+\S+\s*&&\s*", "", l)          # "cd <repo-root> && cargo test …"
         if re.match(r"^(CARGO_NET_OFFLINE=true\s+)?cargo\s+(test|run|nextest)", l):
             cmds.append(l)
     return txt, cmds
